@@ -745,9 +745,15 @@ impl<'a> Exerciser<'a> {
             self.iterate::<Shape>(&mut rd, "iter_shapes");
             let count = self.call("shape_count", || rd.shape_count()).and_then(|c| c.ok()).unwrap_or(0);
             let upto = count.min(6) + 2;
-            for i in 0..upto {
+            for i in (0..upto).chain([count + 1000, usize::MAX / 2, usize::MAX - 1, usize::MAX]) {
                 self.call("read_nth_shape", || rd.read_nth_shape(i).map(|r| r.is_ok()));
             }
+            self.call("iter_shapes::next+nth(usize::MAX)", || {
+                let mut it = rd.iter_shapes();
+                let a = it.next().map(|r| r.is_ok());
+                let b = it.nth(usize::MAX).map(|r| r.is_ok());
+                (a, b)
+            });
             for i in [0usize, 1, count.saturating_sub(1), count, count + 1, count + 1000, usize::MAX] {
                 self.call("seek", || rd.seek(i).is_ok());
                 self.call("iter_shapes(after seek)::size_hint", || rd.iter_shapes().size_hint());
@@ -841,8 +847,11 @@ impl<'a> Exerciser<'a> {
                 self.call("Reader::new+read", move || {
                     let db = shapefile::dbase::Reader::new(Cursor::new(dbf)).ok()?;
                     let mut full = Reader::new(rd, db);
-                    let _ = full.shape_count();
-                    let _ = full.seek(1);
+                    let n = full.shape_count().unwrap_or(0);
+                    // any usize is a legal argument of seek: far behind the last record as well
+                    for k in [n + 1000, usize::MAX / 2, usize::MAX, 1] {
+                        let _ = full.seek(k);
+                    }
                     let mut k = 0usize;
                     for item in full.iter_shapes_and_records() {
                         let _ = item;
